@@ -180,13 +180,13 @@ def run(F, R):
             if not nid or nid[0] not in S.live:
                 continue
             (inn if nid[0] in L else outn).append((bi, si, kind, x))
-        if len(inn) == 1 and len(outn) == 1 and inn[0][2] == "rv" and outn[0][2] == "rv":
-            t_in = bv._trace_rv(inn[0][3], frozenset([l]), 0)
+        if len(inn) >= 1 and len(outn) == 1 and all(d_[2] == "rv" for d_ in inn) and outn[0][2] == "rv":
+            # one `+= 1` per way round the loop (several textual sites when an arm continues early)
             t_out = bv._trace_rv(outn[0][3], None, 0)
             k0 = lib.term_const(c, t_out)
-            if t_in[0] == "field" and t_in[1][0] == "binop" and t_in[1][1] == "AddWithOverflow" and lib.term_const(c, t_in[1][3]) == 1 and isinstance(k0, int):
-                if t_in[1][2] == ("rec", l):
-                    cands.append((l, k0))
+            t_ins = [bv._trace_rv(d_[3], frozenset([l]), 0) for d_ in inn]
+            if isinstance(k0, int) and all(t_in[0] == "field" and t_in[1][0] == "binop" and t_in[1][1] == "AddWithOverflow" and lib.term_const(c, t_in[1][3]) == 1 and t_in[1][2] == ("rec", l) for t_in in t_ins):
+                cands.append((l, k0))
     if not R.floor("C06-R1", "attempt counters (init const, +1 per iteration)", len(cands), 1):
         return
     entry_nodes = [v for v in L if any(p not in L for p in S.pred[v])]
